@@ -264,4 +264,15 @@ def ListValid (c : Ctx) : List Tree → Bool
   | t :: ts => TreeValid c t && ListValid c ts
 end
 
+/-! ### start tags as bytes: every attribute list of the export survives nolibxml's render + scan -/
+
+mutual
+/-- every start tag rendered by the nolibxml exporter (`new_prop` per attribute) and read back by its `next_attr` loop -/
+def rescan : Elem → Elem
+  | .mk t a c ks => .mk t (Xml.scanAttrs (a.length + 1) (Xml.renderAttrs a)) c (rescanList ks)
+def rescanList : List Elem → List Elem
+  | [] => []
+  | e :: es => rescan e :: rescanList es
+end
+
 end Hw.XmlTree
